@@ -35,7 +35,7 @@ BindOK(id, term) ==
   /\ \A p \in intern : p[1] = id => p[2] = term
   /\ \A p \in intern : p[2] = term => p[1] = id
 Bind(id, term) == intern \cup {<<id, term>>}
-TermOf(id, tbl) == IF \E p \in tbl : p[1] = id THEN (CHOOSE p \in tbl : p[1] = id)[2] ELSE "unbound"
+TermOf(id, tbl) == IF \E p \in tbl : p[1] = id THEN (CHOOSE p \in tbl : p[1] = id)[2] ELSE <<"unbound", id>>
 
 SnapOK(snap, tbl, cch) ==
   /\ {s.c : s \in {snap[i] : i \in 1..Len(snap)}} = DOMAIN cch
@@ -59,6 +59,7 @@ Obl(e) ==
          <<"id-stable-and-injective", e.ok => BindOK(e.idx, IdxSpec(e.c, e.o))>>,
          <<"id-is-hkdf-reference", e.ok => e.ref_ok>>,
          <<"issuer-key-is-reference", e.brk_ref_ok>> >>
+    [] e.op = "Retained" -> << <<"returned-ids-keep-their-value", e.unchanged>> >>
     [] e.op = "Snapshot" -> <<
          <<"client-indices-match-model", SnapOK(e.snap, intern, cache)>> >>
     [] OTHER -> << <<"unknown-event", FALSE>> >>
